@@ -154,11 +154,11 @@ func (fx *Fx) basicLit(x *ast.BasicLit) Val {
 	case token.INT:
 		n, err := strconv.ParseInt(x.Value, 0, 64)
 		if err != nil {
-			u, err2 := strconv.ParseUint(x.Value, 0, 64)
-			if err2 != nil {
+			bv := constant.MakeFromLiteral(x.Value, token.INT, 0)
+			if bv.Kind() != constant.Int {
 				panic(unsupported("int literal " + x.Value))
 			}
-			return Val{T: types.Typ[types.UntypedInt], S: SInt, X: fmt.Sprint(u)}
+			return Val{T: types.Typ[types.UntypedInt], S: SInt, X: bigIntLit(bv)}
 		}
 		return Val{T: types.Typ[types.UntypedInt], S: SInt, X: intLit(n)}
 	case token.FLOAT:
@@ -441,6 +441,15 @@ func (fx *Fx) evalSlice(st *State, x *ast.SliceExpr, spec bool) Val {
 	hi := ln
 	if x.High != nil {
 		hi = fx.eval(st, x.High, spec).X
+		// s[:len(s)] is s
+		if c, ok := ast.Unparen(x.High).(*ast.CallExpr); ok && len(c.Args) == 1 {
+			if id, ok := c.Fun.(*ast.Ident); ok && id.Name == "len" && exprText(c.Args[0]) == exprText(x.X) {
+				hi = ln
+			}
+		}
+	}
+	if x.Max != nil {
+		fx.assumed["capacity of slices is not modelled (three-index slices are read as two-index slices)"] = true
 	}
 	if !spec && fx.inSpec == 0 {
 		g := and(app("<=", "0", lo), app("<=", lo, hi), app("<=", hi, ln))
@@ -451,7 +460,10 @@ func (fx *Fx) evalSlice(st *State, x *ast.SliceExpr, spec bool) Val {
 		if lo == "0" && hi == ln {
 			return b
 		}
-		return Val{T: b.T, S: SStr, X: app("substr", b.X, lo, hi)}
+		return Val{T: b.T, S: SStr, X: app("ssub", b.X, lo, hi)}
+	}
+	if !isArr && lo == "0" && hi == ln {
+		return b
 	}
 	// generic sequences / arrays: fresh result defined over the result index
 	var es string
@@ -591,7 +603,7 @@ func (fx *Fx) binop(st *State, op token.Token, a, b Val, text string, spec bool)
 			s := *a.Lit + *b.Lit
 			return Val{T: rt, S: SStr, X: fx.d.strLit(s), Lit: &s}
 		}
-		return Val{T: rt, S: SStr, X: app("concat", a.X, b.X)}
+		return Val{T: rt, S: SStr, X: app("sconcat", a.X, b.X)}
 	}
 	if a.S == SReal {
 		switch op {
